@@ -115,7 +115,31 @@ fn plain_answer(p: &mut Plain, op: &str) -> String {
     }
 }
 
+/// `C03 big <n> <mul> <i,i,…>`: the arithmetic sequence `vs[j] = mul·j` of `n` elements (too long
+/// to be written into a request), `get(i)` for the listed indices. Manual replays only.
+fn exec_big(a: &[&str]) -> String {
+    let n: usize = a[1].parse().expect("n");
+    let mul: u64 = a[2].parse().expect("mul");
+    let vs: Vec<u32> = (0..n as u64).map(|j| (mul * j) as u32).collect();
+    let ef = EliasFano::build(&vs);
+    let mut out = Vec::new();
+    let mut fail = None;
+    for (k, t) in a[3].split(',').enumerate() {
+        let i: usize = t.parse().expect("index");
+        let got = o32(ef.get(i));
+        let want = o32(vs.get(i).copied());
+        if fail.is_none() && got != want {
+            fail = Some(format!("ORACLE-FAIL@{k}:{want}"));
+        }
+        out.push(got);
+    }
+    format!("{} {}", out.join(","), fail.unwrap_or_else(|| "ORACLE-OK".into()))
+}
+
 pub fn exec(a: &[&str]) -> String {
+    if a.len() == 4 && a[0] == "big" {
+        return exec_big(a);
+    }
     if a.len() != 3 || a[0] != "run" {
         return "BAD-OP".into();
     }
@@ -436,7 +460,7 @@ pub fn gen(tier: Tier, r: &mut Rng, emit: &mut dyn FnMut(String)) {
         }
     }
     // 2. many small/medium sequences: all probes + histories of varying length
-    let small = if quick { 700 } else { 40_000 };
+    let small = if quick { 450 } else { 40_000 };
     for j in 0..small {
         let n = match r.below(10) {
             0 => r.usize_below(4),
